@@ -164,6 +164,9 @@ class SkBaseTransformStacking(SkBaseTransform):
         if "method" in values:
             self.method = values["method"]
             del values["method"]
+        own = {k: values.pop(k) for k in list(values) if k in self.P.Keys}
+        if own:
+            super().set_params(**own)
         for k, v in values.items():
             if not k.startswith("models_"):
                 raise ValueError(f"Parameter '{k}' must start with 'models_'.")
@@ -172,10 +175,11 @@ class SkBaseTransformStacking(SkBaseTransform):
         for k, v in values.items():
             si = k[d:].split("__", 1)
             i = int(si[0])
-            pars[i][k[d + 1 + len(si) :]] = v
+            pars[i][si[1]] = v
         for p, m in zip(pars, self.models):
             if p:
                 m.set_params(**p)
+        return self
 
     #################
     # common methods
